@@ -34,7 +34,7 @@ type sessEnv struct {
 	meta   *fakeMeta
 	md     metadata.Metadata
 	co     *fakeConsumer
-	disc   *fakeDisc
+	disc   sessDisc // l1_api.go: *fakeDisc, or the real discovery in group mode
 	eh     *fakeEH
 	st     stream.Stream
 	hc     stream.Checkpoint
@@ -46,6 +46,8 @@ type sessEnv struct {
 	ro     bool
 	colls  map[uint32]string
 	isOpen bool
+	api    *apiEnv // l1_api.go: the real HTTP API over the current stream object (nil until an api-* op needs it)
+	ab     *apiBus // l1_api.go: the bus behind it
 }
 
 func newSessEnv() *sessEnv {
@@ -96,7 +98,7 @@ func (e *sessEnv) applyCfg(args []string) string {
 			e.colls[uint32(id)] = p[1]
 		}
 	}
-	return "ok"
+	return e.apiCfg(kv) // l1_api.go: `grp=M/T nvb=N` = real vBucket discovery (stream sess-api)
 }
 
 func u64(s string) uint64 {
@@ -201,6 +203,9 @@ func (e *sessEnv) exec(line string) (res string) {
 			}
 		}
 	}()
+	if r, ok := e.execAPI(t); ok { // l1_api.go: api-* ops go through the real HTTP API
+		return r
+	}
 	switch t[0] {
 	case "reset":
 		return "ok"
@@ -375,6 +380,10 @@ func (e *sessEnv) exec(line string) (res string) {
 	case "ack":
 		i := int(u64(t[1]))
 		e.co.mu.Lock()
+		if i >= len(e.co.ctxs) { // only in shrunk / hand-written replays; the index panic would leave the mutex locked
+			e.co.mu.Unlock()
+			return "bad:no such context"
+		}
 		ctx, sess, cur := e.co.ctxs[i], e.co.sess[i], e.co.cur
 		e.co.mu.Unlock()
 		if sess != cur {
@@ -642,6 +651,7 @@ func (e *sessEnv) scrape() string {
 
 // abort in-flight micro-stepped savers at the end of a case (so no goroutine stays blocked)
 func (e *sessEnv) cleanup() {
+	e.apiDown()
 	for _, k := range sortedKeys(e.savers) {
 		if e.phase[k] == "" && e.savers[k].rel != nil {
 			select {
